@@ -1,6 +1,72 @@
-"""C03: the pairwise claim for canonical collisions reduces to the composition equalities (pure EUF lemma)."""
+"""C03: the pairwise claim for canonical collisions reduces to the composition equalities (pure EUF lemma); and, structural, read off the AST of /repo on
+every run: the three schemes CLEAN their argument alike.  Two URLs that differ only in what the cleaning removes (control characters, surrounding whitespace, hex
+case of escapes) have the same canonical form, so every stronger scheme must apply the same steps in the same order before it looks at anything else -
+otherwise '\\x00 http://a.com' and ' \\x00http://a.com' part ways (seeds C03b, C04d)."""
+import ast
+import os
+import time
+
 import z3
 from pyvc.lemmas import LemmaSession
+
+REPO = os.environ.get("URAL_REPO", "/repo")
+CLEANING = {"CONTROL_CHARS_RE.sub": "drop-control-characters", "strip": "strip", "upper_quoted": "upper-case-escapes", "lower": "lower-case",
+            "unquote_letters": "unquote-letters", "lowercase_url": "lowercase_url"}
+
+
+def steps_of(expr, var):
+    """the cleaning steps applied to `var` by the expression, innermost first; None when the expression is something else"""
+    if isinstance(expr, ast.Name) and expr.id == var:
+        return []
+    if isinstance(expr, ast.Call):
+        f = expr.func
+        # PATTERN.sub("", x)
+        if isinstance(f, ast.Attribute) and f.attr == "sub" and isinstance(f.value, ast.Name) and f.value.id == "CONTROL_CHARS_RE" and len(expr.args) == 2 \
+                and isinstance(expr.args[0], ast.Constant) and expr.args[0].value == "":
+            inner = steps_of(expr.args[1], var)
+            return None if inner is None else inner + ["drop-control-characters"]
+        # x.strip() / x.lower()
+        if isinstance(f, ast.Attribute) and f.attr in ("strip", "lower") and not expr.args and not expr.keywords:
+            inner = steps_of(f.value, var)
+            return None if inner is None else inner + [CLEANING[f.attr]]
+        # helper(x)
+        if isinstance(f, ast.Name) and f.id in ("upper_quoted", "unquote_letters", "lowercase_url") and len(expr.args) == 1 and not expr.keywords:
+            inner = steps_of(expr.args[0], var)
+            return None if inner is None else inner + [CLEANING[f.id]]
+    return None
+
+
+def prologue(relpath, name, var="url", skip_if=("infer_redirection",)):
+    """cleaning steps at the head of the function, in order of application (assignments `var = <steps>(var)` and `return <steps>(var)`); statements that do not
+    touch `var` (a saved copy of the argument, the optional redirection pre-step) are passed over; the first other statement ends the prologue"""
+    tree = ast.parse(open(os.path.join(REPO, relpath), encoding="utf-8").read())
+    fn = next((n for n in tree.body if isinstance(n, ast.FunctionDef) and n.name == name), None)
+    if fn is None:
+        return None
+    out = []
+    for st in fn.body:
+        if isinstance(st, ast.Expr) and isinstance(st.value, ast.Constant):
+            continue                                   # docstring
+        if isinstance(st, ast.Assign) and len(st.targets) == 1 and isinstance(st.targets[0], ast.Name):
+            tgt = st.targets[0].id
+            if tgt == var:
+                s = steps_of(st.value, var)
+                if s is None:
+                    break
+                out += s
+                continue
+            if isinstance(st.value, ast.Name):
+                continue                               # original_url_arg = url
+            break
+        if isinstance(st, ast.If) and isinstance(st.test, ast.Name) and st.test.id in skip_if:
+            continue                                   # if infer_redirection: url = resolve(url)
+        if isinstance(st, ast.Return) and st.value is not None:
+            s = steps_of(st.value, var)
+            if s is not None:
+                out += s
+            break
+        break
+    return out
 
 
 def run_lemmas(budget):
@@ -16,4 +82,26 @@ def run_lemmas(budget):
             "forall u. n(c u) = n u  |-  c a = c b => n a = n b")
     L.prove("same-canonical=>same-fingerprint", [comp_f, c(a) == c(b)], f(a) == f(b), budget,
             "forall u. f(c u) = f u  |-  c a = c b => f a = f b")
-    return L.result()
+    # structural: same cleaning, same order
+    skipped = []
+    t0 = time.time()
+    try:
+        pc = prologue("ural/canonicalize_url.py", "canonicalize_url")
+        pn = prologue("ural/normalize_url.py", "normalize_url")
+        pl = prologue("ural/fingerprint_url.py", "lowercase_url")
+    except Exception as e:           # the source no longer has the shape this reader knows: undecided, not a violation
+        pc = pn = pl = None
+    for nm, got, want, why in (
+            ("cleaning[normalize_url~canonicalize_url]", pn, pc, "normalize_url cleans its argument with the steps of canonicalize_url, in the same order"),
+            ("cleaning[lowercase_url]", pl, None, "fingerprint_url drops control characters before it reads escapes or letter case")):
+        if got is None or (want is None and nm.startswith("cleaning[normalize")) or not got or (want is not None and not want):
+            # the source no longer has a shape this reader knows: no obligation is generated (undecided; the bounded clauses of c03 / c04 decide), never a violation
+            skipped.append("structural." + nm + ": cleaning prologue not recognised (%r / %r)" % (got, want))
+            continue
+        ok = (got == want) if want is not None else (got[:1] == ["drop-control-characters"])
+        L.results.append({"name": "C03.lemmas#structural." + nm, "kind": "structural", "status": "discharged" if ok else "refuted", "backend": "ast",
+                          "time_s": round(time.time() - t0, 4), "where": "ural/normalize_url.py:normalize_url" if want is not None else "ural/fingerprint_url.py:lowercase_url",
+                          "clause": why, "detail": "%s vs %s" % (got, want) if want is not None else "%s" % (got,)})
+    res = L.result()
+    res["notes"] = skipped
+    return res
